@@ -125,8 +125,8 @@ class Ctx:
     def selftest(self, name: str, rejected: bool, note: str = "") -> None:
         """Binding demonstration: a deliberately corrupted record/trace must be rejected."""
         self.selftests.append({"name": name, "rejected": bool(rejected), "note": note})
-        if not rejected:
-            raise MachineryError(f"binding self-test '{name}' was NOT rejected: the check is vacuous ({note})")
+        # judged in finish(): a failing self-test is a machinery failure unless genuine violations were found
+        # (a defective library may also break the machinery the self-test drives)
 
     # ------------------------------------------------------------------ finish
     def finish(self) -> int:
@@ -134,6 +134,9 @@ class Ctx:
         states = sum(r.distinct for r in self.tlc_runs)
         transitions = sum(r.transitions for r in self.tlc_runs)
         nviol = len(self.violations)
+        failed = [t["name"] for t in self.selftests if not t["rejected"]]
+        if failed and nviol == 0:
+            raise MachineryError(f"binding self-test(s) not rejected - the check would be vacuous: {failed}")
         replay_paths: List[str] = []
         if nviol:
             self.replay_dir.mkdir(parents=True, exist_ok=True)
@@ -204,7 +207,19 @@ def run_check(pid: str, fn: Callable[[Ctx], None], argv: Optional[List[str]] = N
     except MachineryError as e:
         print(f"MACHINERY-FAILURE property={pid}: {e}", file=sys.stderr)
         return 2
-    except Exception:
+    except Exception as e:
+        # an exception raised inside pfhedge itself on an input the specification accepts is a violation,
+        # an exception of the harness is a machinery failure
+        frames = traceback.extract_tb(e.__traceback__)
+        if frames and "/repo/" in frames[-1].filename.replace("\\", "/") or any("/repo/pfhedge/" in f.filename for f in frames[-3:]):
+            where = next((f"{f.filename}:{f.lineno}" for f in reversed(frames) if "/repo/" in f.filename), "?")
+            ctx.violation(f"library-exception:{type(e).__name__}", f"pfhedge raised {type(e).__name__} at {where} on an input the specification accepts",
+                          {"error": repr(e)[:300], "traceback": traceback.format_exc()[-1500:]})
+            try:
+                return ctx.finish()
+            except MachineryError as e2:
+                print(f"MACHINERY-FAILURE property={pid}: {e2}", file=sys.stderr)
+                return 2
         print(f"MACHINERY-FAILURE property={pid}: unexpected exception in the harness", file=sys.stderr)
         traceback.print_exc()
         return 2
